@@ -109,6 +109,11 @@ func runC05(w *World, r *Report) {
 	r.Rule("trailing", "decoders test the input length with lower bounds only", 60)
 	r.Rule("codes", "the code a constructor stores selects, in the dispatcher, the kind that constructor returns", 30)
 	r.Rule("retain", "elements decoded in list loops are stored into the receiver", 5)
+	r.Rule("errfail", "in the codecs a failed step fails the whole: the branch for a non-nil error returns a non-nil error (no log-and-continue that leaves an element out while counts and declared lengths still include it)", 50)
+	errFailRule(w, r, "errfail", func(fi *FuncInfo) bool {
+		n := fi.Pkg.Types.Name()
+		return n == "openflow13" || n == "protocol" || n == "common"
+	})
 	r.Rule("extent", "the size an element reports (by which list decoders advance) equals the bytes its encoder produces", 100)
 	r.Rule("exhaust", "list-decoding loops run while any element can remain", 6)
 	r.Rule("keepall", "an element consumed by a list loop is stored on every path", 0)
